@@ -67,6 +67,15 @@ func ValidateServices(i Input) error {
 		ValidateServiceTags,
 	}
 
+	// generated getters are methods of the same struct, so they must be unique
+	getters := make(map[string][]string) // getter => names of services
+	for _, n := range maps.Keys(i.Services) {
+		s := i.Services[n]
+		if s.Getter != nil && !ptr.Dereference(s.Todo, DefaultServiceTodo) {
+			getters[*s.Getter] = append(getters[*s.Getter], n)
+		}
+	}
+
 	var errs []error
 
 	for _, n := range maps.Keys(i.Services) {
@@ -77,6 +86,13 @@ func ValidateServices(i Input) error {
 		if !ptr.Dereference(s.Todo, DefaultServiceTodo) {
 			for _, v := range validators {
 				sErrs = append(sErrs, v(s))
+			}
+			if s.Getter != nil && len(getters[*s.Getter]) > 1 {
+				sErrs = append(sErrs, fmt.Errorf(
+					"getter: %+q is used by more than one service: %+q",
+					*s.Getter,
+					getters[*s.Getter],
+				))
 			}
 		}
 		errs = append(errs, grouperror.Prefix(fmt.Sprintf("%+q: ", n), sErrs...))
